@@ -31,7 +31,7 @@ external c_iter_next : nativeint -> (string * string) option = "vp_iter_next"
 external c_iter_destroy : nativeint -> unit = "vp_iter_destroy"
 
 let engine = "wr"
-let rule = "cases = (writer configuration, add sequence): configurations over 6 compression types x default/explicit levels x block sizes (unset, clamped, 1024..4096) x restart intervals (unset,1,2,3,16,random) x pool 0..4 x foreign prefix (0, small, sparse > 4 GiB); add sequences: sorted families with shared prefixes / prefixes / extensions / empty key / binary bytes / separator-branch pairs / 128- and 16384-byte lengths, fixed-size runs that cut several blocks, entries sized to hit the cut test exactly and +-1, unsorted sequences with duplicates, smaller keys and proper prefixes. Non-trivial: at least 2 accepted entries; distinct by (configuration, sequence)."
+let rule = "cases = (writer configuration, add sequence): configurations over 6 compression types x default/explicit levels x block sizes (unset, clamped, 1024..4096) x restart intervals (unset,0,1,2,3,16,random) x pool 0..4 x foreign prefix (0, small, sparse > 4 GiB); add sequences: sorted families with shared prefixes / prefixes / extensions / empty key / binary bytes / separator-branch pairs / 128- and 16384-byte lengths, fixed-size runs that cut several blocks, entries sized to hit the cut test exactly and +-1, unsorted sequences with duplicates, smaller keys and proper prefixes. Non-trivial: at least 2 accepted entries; distinct by (configuration, sequence)."
 
 let tmpdir () =
   let d = Filename.concat (try Sys.getenv "VERIF_BUILD" with Not_found -> "/verif/build") "tmp" in
@@ -56,7 +56,7 @@ let model_opts (c : wcfg) : wopts =
   { wo_comp = (if c.comp < 0 then dEFAULT_COMPRESSION_TYPE else n_of_int c.comp);
     wo_level = (match c.level with None -> dEFAULT_COMPRESSION_LEVEL | Some l -> z_of_int l);
     wo_block_size = (match c.block_size with None -> dEFAULT_BLOCK_SIZE | Some b -> clamp_block_size (n_of_int b));
-    wo_interval = (match c.interval with None -> dEFAULT_BLOCK_RESTART_INTERVAL | Some i -> n_of_int i) }
+    wo_interval = (match c.interval with None -> dEFAULT_BLOCK_RESTART_INTERVAL | Some i -> clamp_restart_interval (n_of_int i)) }
 
 type impl_out = {
   results : bool list;
@@ -173,7 +173,11 @@ let check_case acc ~klass ~with_info (c : wcfg) (ops : (string * string) list) =
   (* implementation *)
   let iend = run_impl c ops path in
   (match iend, mres with
-   | Signaled (s, _), Abort -> bump acc "both_abort"
+   | Signaled (s, _), Abort ->
+     (* the model predicts the assertion failure - it follows the code - but every configuration and add sequence generated
+        here is one the properties quantify over: an abort is a violation, model or not *)
+     bump acc "both_abort";
+     viol "[C08,C09,C01]" "writer aborted on an add sequence it must handle (the model of the code predicts the failing assertion)" (Printf.sprintf "signal %d" s)
    | Signaled (s, _), _ ->
      mism "[C08,C09,C10,C01]" "writer ended by a signal" (Printf.sprintf "signal %d" s) "completes";
      viol "[C08,C09,C01]" "writer aborted on an add sequence it must handle" (Printf.sprintf "signal %d" s)
@@ -402,6 +406,9 @@ let run ~tier ~seed ~only acc =
     ("single_empty_entry", { nocfg with comp = 2 }, [ ("", ""); ("big", String.make 2000 'B') ]);
     ("empty_key_dups", nocfg, [ ("", "a"); ("", "b"); ("", "c"); ("x", "d"); ("x", "e") ]);
     ("fast_path_boundary", nocfg, [ ("", String.make 128 'v'); ("b", String.make 256 'w'); (String.make 128 'c', "x") ]);
+    (* F13: a restart interval of 0 keys *)
+    ("restart_interval_0", { nocfg with interval = Some 0 }, [ ("a", "1"); ("b", "2"); ("b", "refused"); ("c", String.make 1200 'x'); ("d", "4") ]);
+    ("restart_interval_0", { nocfg with interval = Some 0; comp = 2; pool = 2 }, List.init 40 (fun i -> (Printf.sprintf "key%03d" i, String.make (i * 7 mod 90) 'v')));
     ("sep_pairs", { nocfg with interval = Some 2 },
      List.sort_uniq compare (List.concat_map (fun (a, b) -> [ (a, String.make 300 '1'); (b, String.make 300 '2') ]) sep_pairs));
     ("sparse_prefix_4g", { nocfg with prefix = Int64.add 0x100000000L 12345L }, rentries_blocks (case_rng ~seed:7 ~engine ~index:0) ~nkeys:40 ~vlen:100);
